@@ -170,3 +170,17 @@ func (m *Model) OrdFragStats() (checked, excluded, stamps, fragIn, fragOut int) 
 	fmt.Sscanf(outs[0], "R checked=%d excluded=%d stamps=%d fragin=%d fragout=%d", &checked, &excluded, &stamps, &fragIn, &fragOut)
 	return
 }
+
+// OrdTieStats: how many steps of the last replayed history satisfied the refinement obligation that has
+// no clock assumption (`Ord2.stepOk2`, theorem `C05_ordered_ties`), and how many steps that are not
+// excluded (not a Seek) did not
+func (m *Model) OrdTieStats() (ok, bad int) {
+	outs, err := m.Replay([]string{"ordstats"})
+	if err != nil || len(outs) != 1 {
+		return
+	}
+	if i := strings.Index(outs[0], " ties="); i >= 0 {
+		fmt.Sscanf(outs[0][i:], " ties=%d tiesbad=%d", &ok, &bad)
+	}
+	return
+}
